@@ -474,6 +474,17 @@ func Check(o CheckOptions) int {
 	for k, v := range o.ExtraCov {
 		cov[k] = v
 	}
+	if f := os.Getenv("VERIF_EXTRA_COV"); f != "" {
+		// coverage measured by a wrapper script of the same check (e.g. the cross-build diff of C18)
+		if b, err := os.ReadFile(f); err == nil {
+			var m map[string]any
+			if json.Unmarshal(b, &m) == nil {
+				for k, v := range m {
+					cov[k] = v
+				}
+			}
+		}
+	}
 	if o.Assume == nil {
 		o.Assume = []string{"sampling: a clean batch is evidence over the seeded runs, not a proof"}
 	}
